@@ -79,9 +79,16 @@ def create_task(coro: Callable[[], Awaitable[Any]], loop: Optional[asyncio.Abstr
     future = loop.create_future()
 
     async def run_task() -> None:
-        with kiwipy.capture_exceptions(future):
-            res = await coro()
-            future.set_result(res)
+        try:
+            with kiwipy.capture_exceptions(future):
+                res = await coro()
+                future.set_result(res)
+        except asyncio.CancelledError:
+            # The coroutine ended by cancellation (it is not an ``Exception``, so it is not captured above): say so
+            # instead of leaving the future, and whoever mirrors it, pending forever
+            if not future.done():
+                future.cancel()
+            raise
 
     asyncio.run_coroutine_threadsafe(run_task(), loop)
     return future
